@@ -171,8 +171,9 @@ def observe(case, with_meta=False):
 
     def test(ref, others):
         return TestStudent(ref, *others, name='c05', alpha=alpha, ndf=ndf).evaluate()
+    sc = float(case.get('scale', 1.0))
     try:
-        res = test(dataset(case['ref']), [dataset(o) for o in case['oth']])
+        res = test(dataset(case['ref'], sc), [dataset(o, sc) for o in case['oth']])
         verdict = bool(res)
         orc, pdec_raw, pval, tstud = res.oracles(), res.test_pvalue(), res.pvalue, res.tstud
     except Exception as ex:  # pylint: disable=broad-except
@@ -234,6 +235,8 @@ def bin_class(case, d, i):
 
 def vkey(what, case, d=None, i=None, expected=None, obs=None):
     ndfc = 'ndf-none' if case['row'] == NORMAL_ROW else 'ndf-given'
+    if case.get('scale', 1.0) != 1.0:
+        ndfc += '/rescaled-%s' % ('tiny' if case['scale'] < 1 else 'huge')
     if what == 'raises':
         return 'C05/raises/%s/%s' % (ndfc, 'scalar' if not case['shape'] else '%dd' % len(case['shape']))
     if what == 'pdec' and obs is not None and obs.get('pdec_form') != 'full':
@@ -322,11 +325,16 @@ def _replay_blocks(blocks):
         res['n'] += 1
         if out['verdict'] != 'undet':
             res['distinct'].add(_distinct_key(st))
-        variants = [(s, 'float') for s in shapes_for(nb)]
+        variants = [(s, 'float', 1.0) for s in shapes_for(nb)]
         if all(isinstance(c[0], int) and isinstance(c[1], int) for cells in (st['ref'],) + tuple(st['oth']) for c in cells):
-            variants.append((shapes_for(nb)[0], 'int'))
-        for k, (shape, dtype) in enumerate(variants):
+            variants.append((shapes_for(nb)[0], 'int', 1.0))
+        # common positive rescaling by exact powers of two (tiny and huge magnitudes): same expected outcome
+        variants.append((shapes_for(nb)[-1], 'float', 2.0 ** -40))
+        variants.append((shapes_for(nb)[0], 'float', 2.0 ** 40))
+        for k, (shape, dtype, scale) in enumerate(variants):
             case = case_of_state(st, shape, dtype)
+            if scale != 1.0:
+                case['scale'] = scale
             obs, problem = observe(case)
             res['evals'] += 1
             if problem:
